@@ -66,23 +66,40 @@ void harness (void)
     img.common.dirty = FALSE;
     snap (&img, &before);
 #if SETTER == 0
-    { pixman_repeat_t r; VP_SYM (r); pixman_image_set_repeat (&img, r); }
+    { pixman_repeat_t r; VP_SYM (r); pixman_image_set_repeat (&img, r);
+      VP_ASSERT (img.common.repeat == r, "set_repeat establishes the requested value"); }
 #elif SETTER == 1
-    { int k; VP_SYM (k); pixman_image_set_transform (&img, k == 0 ? NULL : k == 1 ? img.common.transform : &targ); }
+    { int k; VP_SYM (k); pixman_bool_t ok = pixman_image_set_transform (&img, k == 0 ? NULL : k == 1 ? img.common.transform : &targ);
+      if (ok && k >= 2)
+      {   /* the requested matrix is in force (identity is stored as "no transform") */
+	  int ident = targ.matrix[0][0] == 65536 && targ.matrix[1][1] == 65536 && targ.matrix[2][2] == 65536 && !targ.matrix[0][1] && !targ.matrix[0][2] && !targ.matrix[1][0] && !targ.matrix[1][2] && !targ.matrix[2][0] && !targ.matrix[2][1];
+	  if (ident) VP_ASSERT (img.common.transform == NULL, "identity is stored as no transform");
+	  else VP_ASSERT (img.common.transform && memcmp (img.common.transform, &targ, sizeof targ) == 0, "set_transform establishes the requested matrix");
+      }
+      if (ok && k == 0) VP_ASSERT (img.common.transform == NULL, "NULL removes the transform"); }
 #elif SETTER == 2
     { pixman_filter_t f; int k; VP_SYM (f); VP_SYM (k);
       VP_ASSUME (f != PIXMAN_FILTER_SEPARABLE_CONVOLUTION);
-      pixman_image_set_filter (&img, f, k == 0 ? NULL : k == 1 ? img.common.filter_params : fparg, k == 0 ? 0 : 1); }
+      pixman_fixed_t *oldp = img.common.filter_params; pixman_filter_t oldf = img.common.filter;
+      pixman_bool_t ok = pixman_image_set_filter (&img, f, k == 0 ? NULL : k == 1 ? oldp : fparg, k == 0 ? 0 : 1);
+      if (ok && !(k == 1 && f == oldf))
+      {
+	  VP_ASSERT (img.common.filter == f, "set_filter establishes the requested filter");
+	  if (k == 0) VP_ASSERT (img.common.filter_params == NULL && img.common.n_filter_params == 0, "no parameters");
+	  if (k >= 2) VP_ASSERT (img.common.n_filter_params == 1 && img.common.filter_params && img.common.filter_params[0] == fparg[0], "set_filter establishes the requested parameters");
+      } }
 #elif SETTER == 3
     { pixman_region32_t r; int k; VP_SYM (k); VP_SYM_BOX (r.extents); r.data = NULL; VP_ASSUME (r.extents.x1 < r.extents.x2 && r.extents.y1 < r.extents.y2);
-      pixman_image_set_clip_region32 (&img, k ? &r : NULL); }
+      pixman_bool_t ok = pixman_image_set_clip_region32 (&img, k ? &r : NULL);
+      if (ok && k) VP_ASSERT (img.common.have_clip_region && img.common.clip_region.extents.x1 == r.extents.x1 && img.common.clip_region.extents.y2 == r.extents.y2, "set_clip_region32 establishes the requested clip");
+      if (ok && !k) VP_ASSERT (!img.common.have_clip_region, "NULL removes the clip"); }
 #elif SETTER == 4
     { pixman_bool_t b; VP_SYM (b); pixman_image_set_source_clipping (&img, b); }
 #elif SETTER == 5
     { int k, x, y; VP_SYM (k); VP_SYM (x); VP_SYM (y); VP_ASSUME (x >= -32768 && x <= 32767 && y >= -32768 && y <= 32767);
       pixman_image_set_alpha_map (&img, k == 0 ? NULL : k == 1 ? &amap1 : &amap2, x, y); }
 #elif SETTER == 6
-    { pixman_bool_t b; VP_SYM (b); pixman_image_set_component_alpha (&img, b); }
+    { pixman_bool_t b; VP_SYM (b); pixman_image_set_component_alpha (&img, b); VP_ASSERT (img.common.component_alpha == b, "set_component_alpha establishes the requested value"); }
 #elif SETTER == 7
     { int k; VP_SYM (k); pixman_image_set_accessors (&img, k & 1 ? (pixman_read_memory_func_t) 1 : 0, k & 2 ? (pixman_write_memory_func_t) 1 : 0); }
 #elif SETTER == 8
@@ -110,6 +127,14 @@ void harness (void)
 	_pixman_image_validate (&img); _pixman_image_validate (&fresh);
 	VP_ASSERT (img.common.flags == fresh.common.flags && img.common.extended_format_code == fresh.common.extended_format_code && !img.common.dirty,
 		   "validate derives flags and format code from the current properties only");
+	{
+	    /* a CLEAN image whose alpha map was modified (dirty) since: validating the image validates the map */
+	    static pixman_image_t par, map; uint32_t gflags; VP_SYM (gflags);
+	    par = fresh; map = fresh; map.common.alpha_map = NULL; map.common.dirty = TRUE; map.common.flags = gflags;
+	    par.common.alpha_map = &map.bits; par.common.dirty = FALSE;
+	    _pixman_image_validate (&par);
+	    VP_ASSERT (!map.common.dirty && map.common.flags == fresh.common.flags, "validating an image brings its (dirty) alpha map up to date even when the image itself is clean");
+	}
     }
 #endif
     VP_END ();
